@@ -56,6 +56,9 @@ impl NdarrayValue {
             (NdarrayValue::U64(arr), Value::ScalarU64(v)) => {
                 arr[IxDyn(indices)] = v;
             }
+            (NdarrayValue::String(arr), Value::ScalarString(v)) => {
+                arr[IxDyn(indices)] = v;
+            }
             (NdarrayValue::F64(arr), Value::F64(v)) => {
                 // For vector values, we need to handle the extra dimensions
                 if indices.len() == 2 {
